@@ -94,13 +94,20 @@ func scenario(seed uint64, idx int, tier string, root string, fixed string, enc 
 		m.FailAt = failBlock
 	}
 	wl := w.Encode()
+	// one scenario in four is a final_blocks_only request: the blocks above the finality point arrive, once final, with the
+	// bare IRREVERSIBLE step; every delivered block is final, so the request can be resumed from every cursor
+	finalOnly := rng.Chance(1, 4)
 	for _, prod := range []bool{false, true} {
 		d := filepath.Join(dir, fmt.Sprint(prod))
 		req := sc.Req(prod, rng.Range(1, 3))
+		req.FinalOnly = finalOnly
 		r := w.Run(d, req, sys.Opts{Sched: rng.Fork(), Timeout: 12 * time.Second})
 		start, handoff, ok := session(r)
 		msgs := dataMsgs(r)
 		tag := fmt.Sprintf("prod=%v", prod)
+		if finalOnly {
+			tag += " final-blocks-only"
+		}
 		if !ok {
 			out = append(out, runRes{line: fmt.Sprintf("DLV %d %s %s %d %d 0 | %s no-session", sqe.MaxRecursionDeepness, wl, sc.Output, sc.Start, sc.Stop, tag), ans: "ERR:" + r.ErrClass(), counts: []string{"no-session"}})
 			continue
@@ -175,7 +182,7 @@ func scenario(seed uint64, idx int, tier string, root string, fixed string, enc 
 			for k := 0; k < 2; k++ {
 				i := rng.Intn(len(msgs) - 1)
 				m := msgs[i]
-				if m.Num > sc.Final { // only cursors on final blocks resolve without a fork resolver
+				if m.Num > sc.Final && !finalOnly { // only cursors on final blocks resolve without a fork resolver
 					continue
 				}
 				req2 := req
